@@ -156,6 +156,9 @@ func c03nsCheck(c c03nsCase) *kit.Verdict {
 	if rep.TimedOut || rep.Exit != 0 {
 		return v.Failf("%s: exit=%d timed out=%v\nstderr: %s", line, rep.Exit, rep.TimedOut, clipN(rep.Stderr, 400))
 	}
+	if rep.WallMs < c03nsExitMs {
+		return v.Failf("%s\nthe process ran for %d ms only; the exit delay is %d ms (C16: no exit before the delay has elapsed)", line, rep.WallMs, c03nsExitMs)
+	}
 	if rep.Injected != len(c.Events) {
 		// a reaction was keyed to a probe that never came, or a send failed: nothing to judge
 		return &kit.Verdict{Inconclusive: true}
@@ -183,7 +186,7 @@ func c03nsCheck(c c03nsCase) *kit.Verdict {
 func TestC03Netns(t *testing.T) {
 	kit.Run(t, kit.Spec[c03nsCase]{
 		Prop: "C03",
-		Rule: "the REAL sx binary in a fresh network namespace (kernel BPF, real AF_PACKET adapter, TPACKET ring): arp / icmp / udp / tcp syn / tcp fin / tcp --flags over a /28../30 attached to a veth (Ethernet) or a tun device (raw IP), 1..20 frames injected on the far end of the veth / written into the tun as reactions to the k-th probe: reply-shaped frames and near misses exactly as in TestC03Detection (subnet edges, port edges, flag sets, options, ICMP types, foreign protocols; VLAN-tagged frames are not generated here because the kernel strips the tag before packet sockets see the frame). Oracle: stdout records = one per frame that shape.Classify calls reply-shaped (multiset); a miss is re-decided with a 3 s exit delay. non-trivial: >=1 reply-shaped and >=1 other frame; distinct by case",
+		Rule: "the REAL sx binary in a fresh network namespace (kernel BPF, real AF_PACKET adapter, TPACKET ring): arp / icmp / udp / tcp syn / tcp fin / tcp --flags over a /28../30 attached to a veth (Ethernet) or a tun device (raw IP), 1..20 frames injected on the far end of the veth / written into the tun as reactions to the k-th probe: reply-shaped frames and near misses exactly as in TestC03Detection (subnet edges, port edges, flag sets, options, ICMP types, foreign protocols; VLAN-tagged frames are not generated here because the kernel strips the tag before packet sockets see the frame). Oracle: stdout records = one per frame that shape.Classify calls reply-shaped (multiset); a miss is re-decided with a 3 s exit delay (and counts as a violation when a reply to the last probe, inside the 400 ms exit delay, is only reported with the long delay); the process must not run shorter than the exit delay. non-trivial: >=1 reply-shaped and >=1 other frame; distinct by case",
 		Gen: func(t *rapid.T) c03nsCase {
 			c := c03nsCase{Cmd: rapid.SampledFrom([]string{"arp", "icmp", "udp", "tcp", "tcp syn", "tcp fin", "tcp --flags fin,ack"}).Draw(t, "cmd"), Bits: rapid.SampledFrom([]int{28, 29, 30}).Draw(t, "bits")}
 			base := strings.Fields(c.Cmd)[0]
@@ -211,6 +214,12 @@ func TestC03Netns(t *testing.T) {
 			}
 			sort.Slice(targets, func(i, j int) bool { return targets[i] < targets[j] })
 			c03GenEvents(t, &vc, gram.Total(want), targets)
+			total := gram.Total(want)
+			if rapid.Bool().Draw(t, "late") && len(vc.Events) > 0 {
+				// a reply to the very last probe: it arrives inside the exit delay and must still be reported (C16)
+				vc.Events[0].AtWrite = total
+				c.Late = true
+			}
 			for _, e := range vc.Events {
 				if strings.HasPrefix(e.Note, "vlan") {
 					// the kernel strips 802.1Q tags before packet sockets see the frame (the tag travels in the ring's
